@@ -127,11 +127,13 @@ def produce(config, repo=None, log=None):
             raise FactsError("fact files missing for crates %s (config %s)" % (missing, config))
         with open(done, "w") as fh:
             fh.write("%.1f\n" % (time.time() - t0))
-        # keep the cache bounded: drop fact sets of other trees (keep the 6 most recent)
+        # keep the cache bounded: drop fact sets of other trees that are old (never ones that may be in use)
         base = os.path.join(CACHE, "facts")
+        now = time.time()
         ds = sorted((os.path.getmtime(os.path.join(base, d)), d) for d in os.listdir(base))
-        for _, d in ds[:-6]:
-            shutil.rmtree(os.path.join(base, d), ignore_errors=True)
+        for mt, d in ds[:-80]:
+            if now - mt > 3 * 3600:
+                shutil.rmtree(os.path.join(base, d), ignore_errors=True)
     return out
 
 
